@@ -138,6 +138,16 @@ func checkC02(c *Ctx) (int, error) {
 			}
 			cs := &RCase{ID: fmt.Sprintf("C02-%d@A%d", i, arch), Kind: "flate", Arch: arch, Tag: st.name,
 				Segs: []RSeg{{Stream: st.s, Src: src, Reads: readSchedules[(i+arch*2)%len(readSchedules)], Multi: true}}}
+			if i%3 == 1 {
+				// a reused Reader: another valid stream first (read completely, or abandoned after a few Reads)
+				prev := streams[(i*7+3)%len(streams)]
+				first := RSeg{Stream: prev.s, Src: srcWith(RSource{Kind: "bytesReader"}, nil), Reads: []int{4096}, Multi: true}
+				if i%2 == 0 {
+					first.Stop = 2
+				}
+				cs.Segs = []RSeg{first, cs.Segs[0]}
+				cs.Tag += "|reused"
+			}
 			cases = append(cases, cs)
 		}
 		c.ev.nontrivial(st.name + fmt.Sprint(descJSON(st)))
